@@ -12,8 +12,8 @@ import time
 ROOT = os.path.dirname(os.path.dirname(os.path.abspath(__file__)))
 REPO = os.environ.get('VERIF_REPO', '/repo')
 CACHE = os.environ.get('VERIF_CACHE_DIR', '/var/tmp/verif-cache')
-EVID = os.path.join(ROOT, 'evidence')
-REPLAY = os.path.join(ROOT, 'replay')
+EVID = os.environ.get('VERIF_EVIDENCE_DIR') or os.path.join(ROOT, 'evidence')
+REPLAY = os.environ.get('VERIF_REPLAY_DIR') or os.path.join(ROOT, 'replay')
 
 import verus_run  # noqa: E402
 import unit as unitmod  # noqa: E402
